@@ -3,7 +3,7 @@ CONSTANTS N = 4
           Names = {"", "a"}
           Devs = {}
           InitDags <- Dags4
-          MaxMiss = 2
+          MaxMiss = 1
           ModeSet = {1, 2, 4}
           FaultSet = {"none", "cancelFetch"}
 INVARIANTS TypeOK RecursiveSupersedesDirect RepinReplacesName IndirectDef QueriesAgree FailedCallNoChange
